@@ -196,11 +196,17 @@ BIG = dict(NRoots=3, MaxActs=7, MaxScopes=4, RootOps=24, TaskOps=16, Horizon=12,
                  'until_f', 'do', 'do_after', 'do_volatile', 'do_fin', 'do_grace', 'cancel', 'await_t', 'raise', 'raise_priv',
                  'put', 'get', 'qclose', 'cput', 'cget', 'cnext', 'cstop', 'cclose', 'await_time', 'await_s', 'until_time',
                  'borrow', 'claim', 'rchange', 'levels', 'await_lvl', 'lvl_rels', 'lvl_shared', 'tick'})
+# the same vocabulary with TWO resource types per supply and until-blocks over connectives of flags
+BIG2 = dict(BIG, NT=2, ResInitB=1, CondSel='flat', Menu=BIG['Menu'] | {'until_conn'})
+CONNS = [['all', [['flag', 1], ['flag', 2]]], ['any', [['flag', 1], ['flag', 2]]], ['all', [['flag', 1], ['nflag', 2]]]]
 TICKS = [{'kind': 'interval', 'p': 2}, {'kind': 'interval', 'p': 0}, {'kind': 'delay', 'p': 0}, {'kind': 'delay', 'p': 2}]
 
 
-def usim_program(rng):
-    """a program within the bounds of storm.BIG; task / scope references are relative and resolved by the puppet"""
+def usim_program(rng, vec=False):
+    """a program within the bounds of storm.BIG (vec: storm.BIG2 - amounts and levels have two resource types, until
+    blocks may wait for a connective of flags); task / scope references are relative and resolved by the puppet"""
+    def amtb():
+        return {'amtb': rng.choice([0, 0, 1, 2])} if vec else {}
     budget = {'acts': BIG['MaxActs'] - BIG['NRoots'], 'scopes': BIG['MaxScopes'], 'pools': BIG['MaxPools'] - 1}
 
     def leafop():
@@ -222,10 +228,14 @@ def usim_program(rng):
         if r == 'levels':
             return {'op': 'levels', 'p': 1}
         if r in ('inc', 'dec'):
-            return {'op': r, 'p': 1, 'amt': rng.choice([0, 1, 2])}
+            if vec and rng.random() < 0.25:
+                mask = rng.choice([1, 2, 3])     # set() names only some of the types
+                return {'op': 'rset', 'p': 1, 'amt': rng.choice([0, 1, 2]) if mask != 2 else 0,
+                        'amtb': rng.choice([0, 1, 2]) if mask != 1 else 0, 'mask': mask}
+            return dict({'op': r, 'p': 1, 'amt': rng.choice([0, 1, 2])}, **amtb())
         if r == 'await_lvl':
-            return {'op': 'await_lvl', 'p': 1, 'v': rng.choice([0, 1, 2]), 'rel': rng.choice(['ge', 'ge', 'le', 'gt', 'lt', 'eq', 'ne']),
-                    'shared': rng.random() < 0.5}
+            return dict({'op': 'await_lvl', 'p': 1, 'v': rng.choice([0, 1, 2]), 'rel': rng.choice(['ge', 'ge', 'le', 'gt', 'lt', 'eq', 'ne']),
+                         'shared': rng.random() < 0.5}, **({'vb': rng.choice([0, 0, 1, 2])} if vec else {}))
         if r == 'tick':
             i = rng.randint(1, 4)
             return dict(op='tick', i=i, **TICKS[i - 1])
@@ -254,8 +264,8 @@ def usim_program(rng):
             elif r < 0.8 and budget['pools'] > 0:
                 budget['pools'] -= 1
                 inner = ops(rng.randint(0, 2), lvl + 1, is_task)
-                out += [{'op': rng.choice(['borrow', 'borrow', 'claim']), 'p': 1, 'amt': rng.choice([0, 1, 1, 2])}] + inner \
-                    + [{'op': 'leave'}]
+                out += [dict({'op': rng.choice(['borrow', 'borrow', 'claim']), 'p': 1, 'amt': rng.choice([0, 1, 1, 2])}, **amtb())] \
+                    + inner + [{'op': 'leave'}]
                 left -= len(inner) + 1
             elif budget['scopes'] > 0:
                 budget['scopes'] -= 1
@@ -267,6 +277,8 @@ def usim_program(rng):
                     o['f'] = rng.choice([1, 2])
                 if kind == 'until_c':
                     o['c'] = [rng.choice(['ge', 'eq']), rng.randint(0, 5)]
+                    if vec and rng.random() < 0.5:
+                        o['c'] = rng.choice(CONNS)
                 body = []
                 for _ in range(rng.randint(0, 2)):
                     if budget['acts'] > 0:
